@@ -211,7 +211,12 @@ impl FailSafe {
 
         kv.access(|mut kv, buf| {
             if let Some(fab_idx) = NonZeroU8::new(fab_idx_raw) {
-                fabrics.remove(fab_idx)?;
+                // The fabric might be gone already (`RemoveFabric` from another
+                // session, or an earlier expiry attempt that failed half-way):
+                // there is nothing to drop then, but the roll-back must go on
+                if fabrics.get(fab_idx).is_some() {
+                    fabrics.remove(fab_idx)?;
+                }
                 fabrics.add_load(fab_idx.get(), &mut kv, buf)?;
 
                 removed_fabric = fabrics.get(fab_idx).is_none().then_some(fab_idx);
